@@ -67,3 +67,108 @@ Example C01_disciplined_example :
 Proof. reflexivity. Qed.
 Example C01_undisciplined_example : sw_run [EWrite [97%N]; ESeparate] = Panic 5%N.
 Proof. reflexivity. Qed.
+
+(* ===== resolveExprs (pkglint.go): the expansion loop with its `visited` set ===== *)
+From PV Require Import Model.Resolve Spec.ResolveSpec Proofs.Resolve Model.Scope Spec.ScopeSpec Proofs.Scope.
+
+(* For ALL scopes (finite maps name -> value, any cycles, self references) and ALL texts, whatever
+   containsExpr answered: the loop ends within |distinct variables of the scope| + 1 passes
+   (resolve_exprs runs resolve_loop on exactly that fuel) -- never OutOfFuel, no panic site. *)
+Theorem C01_resolve_terminates : forall (has_expr : bool) (sc : rscope) (text : str),
+  exists r, resolve_exprs has_expr sc text = Ok r.
+Proof. exact resolve_terminates. Qed.
+Print Assumptions C01_resolve_terminates.
+
+(* the fuel bound spelled out: any fuel above the number of distinct variables suffices *)
+Theorem C01_resolve_fuel_sufficient : forall (sc : rscope) (text : str) (fuel : nat),
+  (length (keys sc) < fuel)%nat -> exists r, resolve_loop fuel sc [] text = Ok r.
+Proof. exact resolve_fuel_sufficient. Qed.
+Print Assumptions C01_resolve_fuel_sufficient.
+
+(* no unbounded growth: the result is at most the text plus the sum of the value lengths of the
+   distinct variables (every variable is expanded at most once per call) *)
+Theorem C01_resolve_output_bounded : forall (has_expr : bool) (sc : rscope) (text r : str),
+  resolve_exprs has_expr sc text = Ok r -> (length r <= length text + value_budget sc)%nat.
+Proof. exact resolve_output_bounded. Qed.
+Print Assumptions C01_resolve_output_bounded.
+
+(* the result is a fixed point of one more pass *)
+Theorem C01_resolve_result_stable : forall (sc : rscope) (text r : str),
+  resolve_exprs true sc text = Ok r -> exists vis, stable sc vis r.
+Proof. exact resolve_result_stable. Qed.
+Print Assumptions C01_resolve_result_stable.
+
+(* not vacuous: the mutual reference A=${B}, B=${A} needs both passes and ends *)
+Definition C01_cyclic_scope : rscope := [([65%N], [36;123;66;125]%N); ([66%N], [36;123;65;125]%N)].
+Example C01_resolve_cycle_example :
+  resolve_exprs true C01_cyclic_scope [36;123;65;125]%N = Ok [36;123;65;125]%N /\
+  resolve_loop 2 C01_cyclic_scope [] [36;123;65;125]%N = OutOfFuel.
+Proof. split; reflexivity. Qed.
+
+(* ===== Scope (scope.go) ===== *)
+
+(* IsDefined(v) <-> the FIRST Define that reached v (directly or as canonical name) carried a real
+   variable assignment; for all histories of Define/Fallback/Use *)
+Theorem C01_scope_isdefined_iff : forall (h : list sop) (v : str),
+  is_defined (scope_run h) v = true <-> exists l rest, defs_of v h = l :: rest /\ is_varassign l = true.
+Proof. exact scope_isdefined_iff. Qed.
+Print Assumptions C01_scope_isdefined_iff.
+
+(* LastDefinition(v) = l <-> the LAST Define that reached v carried l, a real assignment *)
+Theorem C01_scope_lastdef_iff : forall (h : list sop) (v : str) (l : sline),
+  last_definition (scope_run h) v = Some l <-> last_opt (defs_of v h) = Some l /\ is_varassign l = true.
+Proof. exact scope_lastdef_iff. Qed.
+Print Assumptions C01_scope_lastdef_iff.
+
+(* FirstDefinition(v) != nil <-> IsDefined(v), in every state: of the eight combinations of
+   (IsDefined, FirstDefinition != nil, LastDefinition != nil) exactly (F,F,F) (F,F,T) (T,T,F) (T,T,T) occur *)
+Theorem C01_scope_firstdef_iff_isdefined : forall (st : sstate) (v : str),
+  (exists l, first_definition st v = Some l) <-> is_defined st v = true.
+Proof. exact scope_firstdef_iff_isdefined. Qed.
+Print Assumptions C01_scope_firstdef_iff_isdefined.
+
+Example C01_scope_combinations :
+  (is_defined (scope_run []) name_A, first_definition (scope_run []) name_A, last_definition (scope_run []) name_A)
+    = (false, None, None) /\
+  (is_defined (scope_run hist_commented_then_real) name_A, first_definition (scope_run hist_commented_then_real) name_A,
+   last_definition (scope_run hist_commented_then_real) name_A) = (false, None, Some (real_line 2)) /\
+  (is_defined (scope_run hist_real_then_commented) name_A, first_definition (scope_run hist_real_then_commented) name_A,
+   last_definition (scope_run hist_real_then_commented) name_A) = (true, Some (real_line 1), None) /\
+  (is_defined (scope_run [ODefine name_A (real_line 1)]) name_A, first_definition (scope_run [ODefine name_A (real_line 1)]) name_A,
+   last_definition (scope_run [ODefine name_A (real_line 1)]) name_A) = (true, Some (real_line 1), Some (real_line 1)).
+Proof. repeat split; reflexivity. Qed.
+
+(* the idiom `if vars.IsDefined(v) { vars.LastDefinition(v).Line }` (package.go needsPlist, ...):
+   false for all histories -- a real assignment followed by a commented-out one ... *)
+Definition C01_scope_isdefined_lastdef_full : Prop := isdefined_lastdef_full.
+Theorem C01_scope_isdefined_lastdef_refuted : ~ C01_scope_isdefined_lastdef_full.
+Proof. exact isdefined_lastdef_refuted. Qed.
+Print Assumptions C01_scope_isdefined_lastdef_refuted.
+
+(* ... true when every Define that reached v carried a real assignment (what Package.parseLine
+   guarantees for pkg.vars before collectVariables runs) *)
+Theorem C01_scope_isdefined_lastdef_partial : forall (h : list sop) (v : str),
+  (forall l, In l (defs_of v h) -> is_varassign l = true) ->
+  is_defined (scope_run h) v = true -> exists l, last_definition (scope_run h) v = Some l.
+Proof. exact scope_isdefined_lastdef_partial. Qed.
+Print Assumptions C01_scope_isdefined_lastdef_partial.
+
+(* the exact condition for LastDefinition(v) != nil *)
+Theorem C01_scope_lastdef_nonnil_iff : forall (h : list sop) (v : str),
+  (exists l, last_definition (scope_run h) v = Some l) <->
+  (exists l, last_opt (defs_of v h) = Some l /\ is_varassign l = true).
+Proof. exact scope_lastdef_nonnil_iff. Qed.
+Print Assumptions C01_scope_lastdef_nonnil_iff.
+
+(* LastValueFound: indeterminate <-> some real `!=` assignment reached v, at any time;
+   found <-> IsDefined or a non-empty fallback *)
+Theorem C01_scope_indeterminate_iff : forall (h : list sop) (v : str),
+  snd (last_value_found (scope_run h) v) = true <-> existsb is_shell_assign (defs_of v h) = true.
+Proof. exact scope_indeterminate_iff. Qed.
+Print Assumptions C01_scope_indeterminate_iff.
+
+Theorem C01_scope_found_iff : forall (st : sstate) (v : str),
+  snd (fst (last_value_found st v)) = true <->
+  is_defined st v = true \/ (is_defined st v = false /\ fld v_fallback st v <> []).
+Proof. exact scope_found_iff. Qed.
+Print Assumptions C01_scope_found_iff.
